@@ -90,7 +90,13 @@ func (a *Allocator) Allocate(hint net.IPNet) (ret net.IPNet, err error) {
 
 // Free returns the given prefix to the available pool if it was taken.
 func (a *Allocator) Free(prefix net.IPNet) error {
-	idx, err := a.toIndex(prefix.IP.Mask(prefix.Mask))
+	base := prefix.IP.Mask(prefix.Mask)
+	if !a.containing.Contains(base) {
+		// Offset() is an absolute distance: without this check a prefix k
+		// blocks below the pool would release block k of the pool
+		return fmt.Errorf("Could not find prefix in pool: %s is outside of %s", prefix.String(), a.containing.String())
+	}
+	idx, err := a.toIndex(base)
 	if err != nil {
 		return fmt.Errorf("Could not find prefix in pool: %w", err)
 	}
